@@ -8,6 +8,7 @@ import (
 	"math"
 	"sort"
 	"strings"
+	"unicode/utf8"
 
 	"golang.org/x/tools/go/ssa"
 )
@@ -107,6 +108,13 @@ type k4interp struct {
 	recurseNew bool
 	// answer (optional) supplies values for opaque queries the model does not list
 	answer func(key string, isBool bool) (k4val, bool)
+	// iters: string iterators (range over a known string), by iterator key
+	iters map[string]*k4strIter
+}
+
+type k4strIter struct {
+	s   string
+	pos int
 }
 
 type k4frame struct {
@@ -248,6 +256,11 @@ func (it *k4interp) call(f *ssa.Function, args []k4val, fvs []k4val) ([]k4val, e
 				if _, err := it.eval(fr, x); err == errK4Undecided {
 					return nil, err
 				}
+			case *ssa.Next:
+				// advances its iterator: evaluated exactly once, where it stands
+				if _, err := it.eval(fr, x); err != nil {
+					return nil, err
+				}
 			case *ssa.MapUpdate:
 				mv, err1 := it.eval(fr, x.Map)
 				kv, err2 := it.eval(fr, x.Key)
@@ -375,6 +388,16 @@ func (it *k4interp) lookup(key string, t types.Type) (k4val, error) {
 	}
 	if strings.HasPrefix(key, "zero.") || strings.HasPrefix(key, "zero[") {
 		// a field/element of a zero-value aggregate
+		if isBoolT(t) {
+			return k4val{kind: 1, b: false}, nil
+		}
+		if isNumeric(t) {
+			return k4val{kind: 2, f: 0}, nil
+		}
+	}
+	if isAppendedElemKey(key) {
+		// a field of an element of a slice built by this interpretation (append/make) that
+		// was never assigned: the literal left it at its zero value
 		if isBoolT(t) {
 			return k4val{kind: 1, b: false}, nil
 		}
@@ -640,6 +663,13 @@ func (it *k4interp) eval1(fr *k4frame, v ssa.Value) (k4val, error) {
 		if a.kind == 3 && iv.kind == 2 {
 			return it.lookup(fmt.Sprintf("%s[%d]", a.s, int64(iv.f)), x.Type())
 		}
+		if a.kind == 4 && iv.kind == 2 {
+			i := int(iv.f)
+			if i < 0 || i >= len(a.s) {
+				return k4val{}, fmt.Errorf("string index %d out of range in interpreted code", i)
+			}
+			return k4val{kind: 2, f: float64(a.s[i])}, nil
+		}
 		return k4val{}, fmt.Errorf("unevaluable index expression")
 	case *ssa.BinOp:
 		a, err := it.eval(fr, x.X)
@@ -836,6 +866,37 @@ func (it *k4interp) eval1(fr *k4frame, v ssa.Value) (k4val, error) {
 			return t.tup[x.Index], nil
 		}
 		return it.opaque(fr, x)
+	case *ssa.Range:
+		sv, err := it.eval(fr, x.X)
+		if err != nil {
+			return sv, err
+		}
+		if sv.kind != 4 {
+			return k4val{}, fmt.Errorf("range over a value that is not a known string")
+		}
+		if it.iters == nil {
+			it.iters = map[string]*k4strIter{}
+		}
+		it.frameID++
+		key := fmt.Sprintf("ITER%d", it.frameID)
+		it.iters[key] = &k4strIter{s: sv.s}
+		return k4val{kind: 3, s: key}, nil
+	case *ssa.Next:
+		iv, err := it.eval(fr, x.Iter)
+		if err != nil {
+			return iv, err
+		}
+		st := it.iters[iv.s]
+		if st == nil || !x.IsString {
+			return k4val{}, fmt.Errorf("next on an unknown iterator")
+		}
+		if st.pos >= len(st.s) {
+			return k4val{kind: 5, tup: []k4val{{kind: 1, b: false}, {kind: 2}, {kind: 2}}}, nil
+		}
+		r, w := utf8.DecodeRuneInString(st.s[st.pos:])
+		res := k4val{kind: 5, tup: []k4val{{kind: 1, b: true}, {kind: 2, f: float64(st.pos)}, {kind: 2, f: float64(r)}}}
+		st.pos += w
+		return res, nil
 	case *ssa.Lookup:
 		// map lookup: an opaque query named by its evaluated key
 		mv, err := it.eval(fr, x.X)
@@ -845,6 +906,14 @@ func (it *k4interp) eval1(fr *k4frame, v ssa.Value) (k4val, error) {
 		iv, err := it.eval(fr, x.Index)
 		if err != nil {
 			return iv, err
+		}
+		if mv.kind == 4 && iv.kind == 2 {
+			// s[i] of a known string
+			i := int(iv.f)
+			if i < 0 || i >= len(mv.s) {
+				return k4val{}, fmt.Errorf("string index %d out of range in interpreted code", i)
+			}
+			return k4val{kind: 2, f: float64(mv.s[i])}, nil
 		}
 		ks := iv.String()
 		if iv.kind == 3 {
@@ -982,14 +1051,12 @@ func (it *k4interp) eval1(fr *k4frame, v ssa.Value) (k4val, error) {
 							} else if it.hasSubEntries(src) {
 								// an aggregate element held field by field (a literal built in a
 								// reused temporary): appending copies it, so freeze its fields now
-								it.frameID++
-								snap := fmt.Sprintf("S%d", it.frameID)
+								dst := fmt.Sprintf("%s[%d]", base, n)
 								for mk, mv := range it.mem {
 									if strings.HasPrefix(mk, src+".") || strings.HasPrefix(mk, src+"[") {
-										it.mem[snap+mk[len(src):]] = mv
+										it.mem[dst+mk[len(src):]] = mv
 									}
 								}
-								it.mem[fmt.Sprintf("%s[%d]", base, n)] = k4val{kind: 3, s: snap}
 							} else {
 								it.mem[fmt.Sprintf("%s[%d]", base, n)] = k4val{kind: 3, s: src}
 							}
@@ -1407,6 +1474,26 @@ func (it *k4interp) hasSubEntries(k string) bool {
 		}
 	}
 	return false
+}
+
+// isAppendedElemKey: "M<digits>[<digits>]." — a field of an element of a backing array
+// created by the interpreter itself
+func isAppendedElemKey(k string) bool {
+	if len(k) < 6 || k[0] != 'M' {
+		return false
+	}
+	i := 1
+	for i < len(k) && k[i] >= '0' && k[i] <= '9' {
+		i++
+	}
+	if i == 1 || i >= len(k) || k[i] != '[' {
+		return false
+	}
+	j := i + 1
+	for j < len(k) && k[j] >= '0' && k[j] <= '9' {
+		j++
+	}
+	return j > i+1 && j+1 < len(k) && k[j] == ']' && k[j+1] == '.'
 }
 
 // isSnapshotKey: "S<digits>." or "S<digits>[" — a sub-entry of a snapshot of a local aggregate
